@@ -37,6 +37,7 @@ COMPONENTS_REAL = [
     "pickle round trips of writers (worker copies)",
 ]
 COMPONENTS_STUB = ["S3 service (FakeS3)", "distributed.get_client / Variable / Lock (fakes with the installed signatures)", "wall clock (virtual time for Variable.get timeouts)", "thread scheduler (ThreadSim baton kernel)"]
+HAZARD_PROBES = []
 ASSUMPTIONS = [
     "S3 errors, lock-lease expiry, disk errors and torn writes are not injected: the statement makes no promise about them",
     "finalise runs after every write has returned (the multi-part protocol guarantees it)",
